@@ -286,7 +286,7 @@ def draw_sensor_block(rng: random.Random, kind: str, coarse: bool, narrow_fov: b
 def network_case(rng: random.Random, *, nsteps=None, step=None, kinds=("optical", "radar", "adv_radar"), n_sensors=None, n_targets=None,
                  coarse=None, narrow_fov=False, decision=None, reward=None, model=None, two_engines_p=0.2, space_sensor_p=0.15,
                  geo_p=0.6, start=None, out_mult=None, estimation=None, noise=None, truth_only=False, background=None,
-                 placed_p=0.85, masks=True, integrator=None, events=None, slow_slew=False) -> dict:
+                 placed_p=0.85, masks=True, integrator=None, events=None, slow_slew=False, edge_p=0.0) -> dict:
     """A complete small scenario: 1-4 sensors, 1-5 targets placed by inverse geometry."""
     import numpy as np
 
@@ -342,6 +342,25 @@ def network_case(rng: random.Random, *, nsteps=None, step=None, kinds=("optical"
             else:
                 rkm = rng.choice([rng.uniform(500, 3000), rng.uniform(8000, 25000)])
                 motion = rng.choice(["corotate", "polar", "any"])
+            if rng.random() < edge_p:
+                # aim at a limit of one of the site's sensors: mask edges, range limits
+                here = [s for s, st in zip(sensors, sites) if st is site]
+                sb = rng.choice(here)["sensor"] if here else None
+                if sb is not None:
+                    which = rng.choice(["az_lo", "az_hi", "el_lo", "el_hi", "max_range", "min_range"])
+                    eps = rng.choice([-1, 1]) * rng.choice([1e-4, 1e-3, 1e-2, 0.05])
+                    if which == "az_lo":
+                        az = (sb["azimuth_range"][0] + eps) % 360.0
+                    elif which == "az_hi":
+                        az = (sb["azimuth_range"][1] + eps) % 360.0
+                    elif which == "el_lo":
+                        el = max(0.2, sb["elevation_range"][0] + eps)
+                    elif which == "el_hi":
+                        el = min(89.9, sb["elevation_range"][1] + eps)
+                    elif which == "max_range" and sb.get("maximum_range") and sb["maximum_range"] < 1e9:
+                        rkm = sb["maximum_range"] + eps * 100
+                    elif which == "min_range" and sb.get("minimum_range"):
+                        rkm = max(300.0, sb["minimum_range"] + eps * 100)
             st = place_over_site(rng, site, when, k * step, az, el, rkm, motion)
             if np.linalg.norm(st[:3]) < RE + 150 or np.linalg.norm(st[:3]) > RE + 44000:
                 orb = draw_orbit(rng, "meo")
